@@ -4,7 +4,8 @@
    threads inside resetOwnThread at once — which is the one extracted to build/m_shutdown and run
    against recordings of the real library.  tools/s2c/shutdown.py re-reads the skeleton of the five
    functions from /repo/src/qtlogger/ownthreadhandler.h on every run (SrcShutdown.v); the model's
-   one code-dependent switch (re-test of the thread after the relock) is COMPUTED from it. *)
+   two code-dependent switches (re-test of the thread after the relock; decrement of the pending
+   count whatever the wrapped handler returned) are COMPUTED from it. *)
 From Coq Require Import List Arith.
 Import ListNotations.
 Require Import QtlVerif.ShutdownDefs QtlVerif.ShutdownProofs QtlVerif.SrcShutdown.
@@ -21,52 +22,59 @@ Proof. reflexivity. Qed.
 Print Assumptions C04_source_rechecks_thread_after_relock.
 Definition rc_src := rechecks_after_relock src_skeleton.
 
+(* Worker::customEvent discards the result of the wrapped handler: the decrement follows the call
+   unconditionally *)
+Theorem C04_source_decrements_whatever_the_handler_returns : dec_unconditional src_skeleton = true.
+Proof. reflexivity. Qed.
+Print Assumptions C04_source_decrements_whatever_the_handler_returns.
+Definition du_src := dec_unconditional src_skeleton.
+
 (* 1. the invariant, after ANY action list (posts, worker steps, stops by any of k stopper threads,
       moves, application death, in any order and number), with or without an application object,
       async on or off at start: accepted = delivered ++ in-hand ++ queued; pending counts the last
       two; no backlog without a worker; mutex discipline (held exactly when one stopper is between
       lock and unlock, at most one is; sleepers hold nothing); a stopper holding the mutex has a
       thread; a returned stop means no worker; no stopper ever acted on a cleared thread *)
-Theorem C04_invariant : forall a w k tr, Inv (run rc_src (init a w k) tr).
+Theorem C04_invariant : forall a w k tr, Inv (run rc_src du_src (init a w k) tr).
 Proof. exact run_inv. Qed.
 Print Assumptions C04_invariant.
 
 Theorem C04_stops_mutually_exclusive : forall a w k tr,
-  let s := run rc_src (init a w k) tr in cc (stops s) <= 1 /\ (mtx s = true <-> In RCheck (stops s)).
+  let s := run rc_src du_src (init a w k) tr in cc (stops s) <= 1 /\ (mtx s = true <-> In RCheck (stops s)).
 Proof. exact stops_mutually_exclusive. Qed.
 Print Assumptions C04_stops_mutually_exclusive.
 
 (* whenever no worker exists — in particular whenever a stop has completed — every message
    accepted so far has been delivered, in acceptance order *)
 Theorem C04_drained_when_stopped : forall a w k tr,
-  let s := run rc_src (init a w k) tr in worker s = false -> log s = accepted s.
+  let s := run rc_src du_src (init a w k) tr in worker s = false -> log s = accepted s.
 Proof. exact drained_when_stopped. Qed.
 Print Assumptions C04_drained_when_stopped.
 
 (* whenever the stop call of ANY stopper has returned (before async mode is switched on again) *)
 Theorem C04_drained_when_reset_done : forall a w k tr,
-  let s := run rc_src (init a w k) tr in In RDone (stops s) -> worker s = false /\ log s = accepted s.
+  let s := run rc_src du_src (init a w k) tr in In RDone (stops s) -> worker s = false /\ log s = accepted s.
 Proof. exact drained_when_reset_done. Qed.
 Print Assumptions C04_drained_when_reset_done.
 
 (* repeated start/stop cycles never touch a destroyed worker: without a worker no worker step is
    enabled, nothing is queued or counted for it *)
 Theorem C04_no_worker_activity_after_stop : forall a w k tr,
-  let s := run rc_src (init a w k) tr in worker s = false ->
-  step rc_src s ATake = None /\ step rc_src s ADone = None /\ queue s = [] /\ inflight s = None /\ pending s = 0.
+  let s := run rc_src du_src (init a w k) tr in worker s = false ->
+  step rc_src du_src s ATake = None /\ (forall ok, step rc_src du_src s (ADone ok) = None) /\ queue s = [] /\ inflight s = None /\ pending s = 0.
 Proof. exact no_worker_activity_after_stop. Qed.
 Print Assumptions C04_no_worker_activity_after_stop.
 
 (* switching asynchronous mode on AGAIN while it is on (a second configure(async=true)) changes
    nothing: not the queued backlog, not the pending count, not the stoppers *)
 Theorem C04_move_again_is_idempotent : forall s,
-  worker s = true -> (mtx s = false -> step rc_src s AMove = Some s) /\ (forall s', step rc_src s AMove = Some s' -> s' = s).
-Proof. exact (move_again_is_idempotent rc_src). Qed.
+  worker s = true -> (mtx s = false -> step rc_src du_src s AMove = Some s) /\ (forall s', step rc_src du_src s AMove = Some s' -> s' = s).
+Proof. exact (move_again_is_idempotent rc_src du_src). Qed.
 Print Assumptions C04_move_again_is_idempotent.
 
 Theorem C04_move_again_changes_nothing : forall s tr,
-  worker s = true -> run rc_src s (AMove :: tr) = run rc_src s tr.
-Proof. exact (move_again_changes_nothing rc_src). Qed.
+  worker s = true -> run rc_src du_src s (AMove :: tr) = run rc_src du_src s tr.
+Proof. exact (move_again_changes_nothing rc_src du_src). Qed.
 Print Assumptions C04_move_again_changes_nothing.
 
 (* CONCURRENT STOPS.  For every number k of stopper threads and every interleaving with producers,
@@ -74,16 +82,16 @@ Print Assumptions C04_move_again_changes_nothing.
    m_thread->quit() on a cleared thread), and the quit/wait/clear step is only ever enabled while
    a thread exists *)
 Theorem C04_concurrent_stops_safe : forall a w k tr,
-  let s := run rc_src (init a w k) tr in
+  let s := run rc_src du_src (init a w k) tr in
   errorb s = false /\
-  (forall i s', step rc_src s (AResetCheck i) = Some s' -> worker s = true /\ errorb s' = false).
+  (forall i s', step rc_src du_src s (AResetCheck i) = Some s' -> worker s = true /\ errorb s' = false).
 Proof. exact concurrent_stops_safe. Qed.
 Print Assumptions C04_concurrent_stops_safe.
 
 (* the repaired wake-up, for an arbitrary state: a stopper that finds no thread after its sleep
    returns without taking the mutex or touching anything *)
 Theorem C04_wake_without_thread_returns : forall s i s',
-  worker s = false -> step rc_src s (AResetWake i) = Some s' ->
+  worker s = false -> step rc_src du_src s (AResetWake i) = Some s' ->
   nth_error (stops s') i = Some RDone /\ mtx s' = false /\ worker s' = false /\ queue s' = queue s /\
   inflight s' = inflight s /\ pending s' = pending s /\ log s' = log s /\ accepted s' = accepted s /\ app s' = app s.
 Proof. exact wake_without_thread_returns. Qed.
@@ -95,7 +103,7 @@ Print Assumptions C04_wake_without_thread_returns.
    takes the mutex and quits a cleared thread) *)
 Theorem C04_concurrent_stops_refuted_before_repair :
   rechecks_after_relock pre_repair_skeleton = false /\
-  exists s, run_strict (rechecks_after_relock pre_repair_skeleton) (init true true 2) two_stops_schedule = Some s
+  exists s, run_strict (rechecks_after_relock pre_repair_skeleton) du_src (init true true 2) two_stops_schedule = Some s
             /\ errorb s = true /\ worker s = false.
 Proof. exact concurrent_stops_refuted_before_repair. Qed.
 Print Assumptions C04_concurrent_stops_refuted_before_repair.
@@ -103,31 +111,31 @@ Print Assumptions C04_concurrent_stops_refuted_before_repair.
 (* 2. at all times and across any number of move/reset cycles the delivered list is a prefix of
       the accepted list: nothing twice, nothing reordered, nothing skipped *)
 Theorem C04_log_prefix : forall a w k tr,
-  let s := run rc_src (init a w k) tr in exists rest, accepted s = log s ++ rest.
+  let s := run rc_src du_src (init a w k) tr in exists rest, accepted s = log s ++ rest.
 Proof. exact log_prefix. Qed.
 Print Assumptions C04_log_prefix.
 
 Theorem C04_never_delivered_twice : forall a w k tr,
-  let s := run rc_src (init a w k) tr in NoDup (accepted s) -> NoDup (log s).
+  let s := run rc_src du_src (init a w k) tr in NoDup (accepted s) -> NoDup (log s).
 Proof. exact never_twice. Qed.
 Print Assumptions C04_never_delivered_twice.
 
 (* a message logged while no worker exists is delivered by the caller at once; one logged while the
    worker exists — e.g. during the wait loop of a stop — is queued and counted *)
 Theorem C04_post_without_worker_is_synchronous : forall s m s',
-  worker s = false -> step rc_src s (APost m) = Some s' ->
+  worker s = false -> step rc_src du_src s (APost m) = Some s' ->
   log s' = log s ++ [m] /\ queue s' = queue s /\ pending s' = pending s.
-Proof. exact (post_without_worker_is_synchronous rc_src). Qed.
+Proof. exact (post_without_worker_is_synchronous rc_src du_src). Qed.
 Print Assumptions C04_post_without_worker_is_synchronous.
 
 Theorem C04_post_with_worker_is_queued : forall s m s',
-  worker s = true -> step rc_src s (APost m) = Some s' ->
+  worker s = true -> step rc_src du_src s (APost m) = Some s' ->
   queue s' = queue s ++ [m] /\ pending s' = S (pending s) /\ log s' = log s /\ stops s' = stops s.
-Proof. exact (post_with_worker_is_queued rc_src). Qed.
+Proof. exact (post_with_worker_is_queued rc_src du_src). Qed.
 Print Assumptions C04_post_with_worker_is_queued.
 
 Theorem C04_accepted_is_never_dropped : forall s m s' tr,
-  Inv s -> step rc_src s (APost m) = Some s' -> worker (run rc_src s' tr) = false -> In m (log (run rc_src s' tr)).
+  Inv s -> step rc_src du_src s (APost m) = Some s' -> worker (run rc_src du_src s' tr) = false -> In m (log (run rc_src du_src s' tr)).
 Proof. exact accepted_is_never_dropped. Qed.
 Print Assumptions C04_accepted_is_never_dropped.
 
@@ -142,29 +150,29 @@ Print Assumptions C04_accepted_is_never_dropped.
    everything accepted delivered and no error.  Missing: fairness of the real scheduler, the 10 ms
    sleeps, wait(3000)/terminate(). *)
 Theorem C04_worker_step_decreases : forall s a s',
-  (a = ATake \/ a = ADone) -> step rc_src s a = Some s' -> mu s' < mu s.
-Proof. exact (worker_step_decreases rc_src). Qed.
+  (a = ATake \/ exists ok, a = ADone ok) -> step rc_src du_src s a = Some s' -> mu s' < mu s.
+Proof. exact (worker_step_decreases rc_src du_src). Qed.
 Print Assumptions C04_worker_step_decreases.
 
 Theorem C04_worker_step_enabled : forall s, Inv s -> app s = true -> 0 < mu s ->
-  exists a s', (a = ATake \/ a = ADone) /\ step rc_src s a = Some s'.
+  exists a s', (a = ATake \/ exists ok, a = ADone ok) /\ step rc_src du_src s a = Some s'.
 Proof. exact worker_step_enabled. Qed.
 Print Assumptions C04_worker_step_enabled.
 
 Theorem C04_check_finishes : forall s i, Inv s -> nth_error (stops s) i = Some RCheck -> mu s = 0 ->
-  exists s', step rc_src s (AResetCheck i) = Some s' /\ nth_error (stops s') i = Some RDone /\ worker s' = false /\
+  exists s', step rc_src du_src s (AResetCheck i) = Some s' /\ nth_error (stops s') i = Some RDone /\ worker s' = false /\
              mtx s' = false /\ log s' = accepted s'.
 Proof. exact check_finishes. Qed.
 Print Assumptions C04_check_finishes.
 
 Theorem C04_check_waits_for_backlog : forall s i, Inv s -> nth_error (stops s) i = Some RCheck -> 0 < mu s ->
-  exists s', step rc_src s (AResetCheck i) = Some s' /\ nth_error (stops s') i = Some RSleep /\ worker s' = true /\ mtx s' = false.
+  exists s', step rc_src du_src s (AResetCheck i) = Some s' /\ nth_error (stops s') i = Some RSleep /\ worker s' = true /\ mtx s' = false.
 Proof. exact check_waits. Qed.
 Print Assumptions C04_check_waits_for_backlog.
 
 Theorem C04_all_stops_terminate_partial : forall s,
   Inv s -> app s = true ->
-  exists tr s', run_strict rc_src s tr = Some s' /\ (forall r, In r (stops s') -> is_active r = false) /\
+  exists tr s', run_strict rc_src du_src s tr = Some s' /\ (forall r, In r (stops s') -> is_active r = false) /\
                 log s' = accepted s' /\ accepted s' = accepted s /\ errorb s' = false /\
                 length tr <= mu s + sm (stops s).
 Proof. exact all_stops_terminate_partial. Qed.
@@ -176,66 +184,110 @@ Print Assumptions C04_all_stops_terminate_partial.
    object goes away, the destructor's stop starts — no continuation whatsoever lets any stop call
    return, and the message is never delivered. *)
 Theorem C04_stop_returns_without_app_refuted :
-  exists s, (exists tr, s = run rc_src (init true true 1) tr) /\ In RCheck (stops s) /\
-            forall tr, ~ In RDone (stops (run rc_src s tr)) /\ log (run rc_src s tr) <> accepted (run rc_src s tr).
+  exists s, (exists tr, s = run rc_src du_src (init true true 1) tr) /\ In RCheck (stops s) /\
+            forall tr, ~ In RDone (stops (run rc_src du_src s tr)) /\ log (run rc_src du_src s tr) <> accepted (run rc_src du_src s tr).
 Proof. exact reset_hangs_without_app. Qed.
 Print Assumptions C04_stop_returns_without_app_refuted.
 
 Theorem C04_stop_returns_with_no_app_ever_refuted :
-  forall tr, ~ In RDone (stops (run rc_src (run rc_src (init false true 1) [APost 0; AResetStart 0]) tr)).
+  forall tr, ~ In RDone (stops (run rc_src du_src (run rc_src du_src (init false true 1) [APost 0; AResetStart 0]) tr)).
 Proof. exact reset_hangs_with_no_app_ever. Qed.
 Print Assumptions C04_stop_returns_with_no_app_ever_refuted.
 
 (* the general form, used by the check to compare "the child timed out" with the model *)
 Theorem C04_stuck_forever : forall tr s, Inv s -> stuck_b s = true ->
-  stuck_b (run rc_src s tr) = true /\ worker (run rc_src s tr) = true /\ ~ In RDone (stops (run rc_src s tr)).
+  stuck_b (run rc_src du_src s tr) = true /\ worker (run rc_src du_src s tr) = true /\ ~ In RDone (stops (run rc_src du_src s tr)).
 Proof. exact stuck_forever. Qed.
 Print Assumptions C04_stuck_forever.
+
+(* 4b. REJECTING HANDLERS.  OwnThreadHandler<> may wrap any Handler, and process() of a filter-like
+   handler (Filter, FunctionHandler, a custom Handler) returns false for a message it rejects.  The
+   verdict is an input of the model (ADone ok), so every theorem above already holds for every
+   sequence of verdicts; in particular a rejected message is counted down exactly like any other,
+   the verdicts can be replaced by `true` in any history without changing the run, and no reachable
+   state has a leaked count *)
+Theorem C04_done_ignores_verdict : forall s ok, step rc_src du_src s (ADone ok) = step rc_src du_src s (ADone true).
+Proof. exact (done_ignores_verdict rc_src). Qed.
+Print Assumptions C04_done_ignores_verdict.
+
+Theorem C04_rejected_message_is_counted_down : forall s ok s', step rc_src du_src s (ADone ok) = Some s' ->
+  exists m, inflight s = Some m /\ inflight s' = None /\ pending s' = pred (pending s) /\
+            log s' = log s ++ [m] /\ queue s' = queue s /\ accepted s' = accepted s /\ stops s' = stops s.
+Proof. exact (rejected_is_counted_down rc_src). Qed.
+Print Assumptions C04_rejected_message_is_counted_down.
+
+Theorem C04_verdicts_are_irrelevant : forall tr s,
+  run rc_src du_src s (map (fun a => match a with ADone _ => ADone true | x => x end) tr) = run rc_src du_src s tr.
+Proof. exact (run_done_verdicts_irrelevant rc_src). Qed.
+Print Assumptions C04_verdicts_are_irrelevant.
+
+Theorem C04_pending_count_never_leaks : forall a w k tr, leaked_b (run rc_src du_src (init a w k) tr) = false.
+Proof. exact never_leaks. Qed.
+Print Assumptions C04_pending_count_never_leaks.
+
+(* ... and why it matters: were customEvent to return early, before the decrement, when the handler
+   rejects (early_return_skeleton; the switch computes to false), then after accept / reject / accept
+   with everything handled (log = accepted, nothing queued or in hand, application alive) a stop
+   that has begun can never return, whatever happens next *)
+Theorem C04_stop_after_rejection_refuted_if_decrement_conditional :
+  dec_unconditional early_return_skeleton = false /\
+  exists s, run_strict true (dec_unconditional early_return_skeleton) (init true true 1) rejecting_schedule = Some s /\
+            log s = accepted s /\ queue s = [] /\ inflight s = None /\ app s = true /\ In RCheck (stops s) /\
+            forall rc tr, leaked_b (run rc false s tr) = true /\ ~ In RDone (stops (run rc false s tr)).
+Proof. exact stop_after_rejection_hangs_if_decrement_conditional. Qed.
+Print Assumptions C04_stop_after_rejection_refuted_if_decrement_conditional.
+
+(* the general form, used by the check to compare "the child timed out" with the model: a leaked
+   count stays leaked and no stop returns, for either value of either switch *)
+Theorem C04_leak_forever : forall rc du tr s, leaked_b s = true /\ ~ In RDone (stops s) ->
+  leaked_b (run rc du s tr) = true /\ ~ In RDone (stops (run rc du s tr)).
+Proof. exact leak_forever. Qed.
+Print Assumptions C04_leak_forever.
 
 (* 5. the tie: a recording (of one or several stopper threads) accepted by the extracted acceptor is
    a run of the model in which every action was enabled, so it ends in a reachable state
    satisfying the invariant, without error ... *)
 Theorem C04_acceptor_sound : forall app0 w0 k evs a,
-  accept_shutdown rc_src app0 w0 k evs = Accepted a ->
-  (exists tr, run_strict rc_src (init app0 w0 k) tr = Some (ms a) /\ ms a = run rc_src (init app0 w0 k) tr)
+  accept_shutdown rc_src du_src app0 w0 k evs = Accepted a ->
+  (exists tr, run_strict rc_src du_src (init app0 w0 k) tr = Some (ms a) /\ ms a = run rc_src du_src (init app0 w0 k) tr)
   /\ Inv (ms a) /\ errorb (ms a) = false.
 Proof. exact accept_sound. Qed.
 Print Assumptions C04_acceptor_sound.
 
 (* ... the deliveries the recording sink reported are a prefix of the posts the hooks reported ... *)
 Theorem C04_accepted_recording_delivers_a_prefix : forall app0 w0 k evs a,
-  accept_shutdown rc_src app0 w0 k evs = Accepted a -> exists rest, accepted (ms a) = obs a ++ rest.
+  accept_shutdown rc_src du_src app0 w0 k evs = Accepted a -> exists rest, accepted (ms a) = obs a ++ rest.
 Proof. exact accept_obs_prefix. Qed.
 Print Assumptions C04_accepted_recording_delivers_a_prefix.
 
 (* ... and a recording that reaches the end of static destruction has delivered everything *)
 Theorem C04_accepted_recording_is_complete_at_exit : forall app0 w0 k evs a,
-  accept_shutdown rc_src app0 w0 k (evs ++ [EExit]) = Accepted a -> obs a = accepted (ms a) /\ worker (ms a) = false.
-Proof. exact (accept_exit_complete rc_src). Qed.
+  accept_shutdown rc_src du_src app0 w0 k (evs ++ [EExit]) = Accepted a -> obs a = accepted (ms a) /\ worker (ms a) = false.
+Proof. exact (accept_exit_complete rc_src du_src). Qed.
 Print Assumptions C04_accepted_recording_is_complete_at_exit.
 
 (* the boolean oracle the check evaluates on the implementation's (posted, delivered, stopped) *)
 Theorem C04_oracle_holds : forall a w k tr,
-  let s := run rc_src (init a w k) tr in prop_c04_b (accepted s) (log s) (negb (worker s)) = true.
+  let s := run rc_src du_src (init a w k) tr in prop_c04_b (accepted s) (log s) (negb (worker s)) = true.
 Proof. exact oracle_holds. Qed.
 Print Assumptions C04_oracle_holds.
 
 (* non-vacuity: two move/reset cycles with a post during the wait loop and a post after the stop;
    everything is delivered once, in order, and both stops complete *)
 Example C04_nonvacuous :
-  let s := run rc_src (init true false 1)
-    [AMove; APost 0; APost 1; ATake; AResetStart 0; AResetCheck 0; APost 2; ADone; ATake; AResetWake 0;
-     AResetCheck 0; ADone; ATake; ADone; AResetWake 0; AResetCheck 0; APost 3; AMove; APost 4; AResetStart 0;
-     AResetCheck 0; ATake; ADone; AResetWake 0; AResetCheck 0; AAppDie; AResetStart 0] in
+  let s := run rc_src du_src (init true false 1)
+    [AMove; APost 0; APost 1; ATake; AResetStart 0; AResetCheck 0; APost 2; ADone true; ATake; AResetWake 0;
+     AResetCheck 0; ADone false; ATake; ADone true; AResetWake 0; AResetCheck 0; APost 3; AMove; APost 4; AResetStart 0;
+     AResetCheck 0; ATake; ADone true; AResetWake 0; AResetCheck 0; AAppDie; AResetStart 0] in
   log s = [0; 1; 2; 3; 4] /\ accepted s = [0; 1; 2; 3; 4] /\ stops s = [RDone] /\ worker s = false /\ pending s = 0.
 Proof. vm_compute. repeat split. Qed.
 
 (* non-vacuity of the concurrent case: the schedule that crashes the pre-repair code is harmless
    now — the second stopper finds no thread and returns; both stops are done, message delivered *)
 Example C04_two_stops_nonvacuous :
-  match run_strict rc_src (init true true 2) two_stops_schedule with
+  match run_strict rc_src du_src (init true true 2) two_stops_schedule with
   | Some _ => False   (* its last step, the second AResetCheck 1, is no longer enabled ... *)
-  | None => let s := run rc_src (init true true 2) two_stops_schedule in
+  | None => let s := run rc_src du_src (init true true 2) two_stops_schedule in
             stops s = [RDone; RDone] /\ log s = [0] /\ worker s = false /\ errorb s = false
   end.
 Proof. vm_compute. repeat split. Qed.
@@ -243,9 +295,9 @@ Proof. vm_compute. repeat split. Qed.
 (* non-vacuity of the acceptor: one asynchronous and one synchronous delivery; two stoppers, the
    second of which wakes up to find no thread *)
 Example C04_acceptor_nonvacuous :
-  match accept_shutdown rc_src true false 2
+  match accept_shutdown rc_src du_src true false 2
     [EMove; EPost 0; EReturned 0; ETake; EResetLocked 0; EResetWaiting 0; EResetLocked 1; EResetWaiting 1;
-     EDeliver 0 false; EDone; EResetQuit 0; EStopEnd 0; EStopEnd 1; EPost 1; EDeliver 1 true; EReturned 1;
+     EDeliver 0 false; EDone true; EResetQuit 0; EStopEnd 0; EStopEnd 1; EPost 1; EDeliver 1 true; EReturned 1;
      EAppGone; EExit] with
   | Accepted a => obs a = [0; 1] /\ accepted (ms a) = [0; 1] /\ stops (ms a) = [RDone; RDone]
   | Rejected _ _ => False
@@ -254,8 +306,28 @@ Proof. vm_compute. repeat split. Qed.
 
 (* and it does reject: the stop quits the thread while message 0 is still queued *)
 Example C04_acceptor_rejects_early_quit :
-  match accept_shutdown rc_src true true 1 [EPost 0; EResetLocked 0; EResetQuit 0] with
+  match accept_shutdown rc_src du_src true true 1 [EPost 0; EResetLocked 0; EResetQuit 0] with
   | Accepted _ => False
   | Rejected k _ => k = 2
   end.
 Proof. vm_compute. reflexivity. Qed.
+
+(* non-vacuity of the rejecting case: the schedule that hangs a stop under the early-return skeleton
+   (accept, reject, accept, stop) completes under the source's: pending is 0, the stop returns *)
+Example C04_rejecting_nonvacuous :
+  match run_strict rc_src du_src (init true true 1) (rejecting_schedule ++ [AResetCheck 0]) with
+  | Some s => stops s = [RDone] /\ log s = [0; 1; 2] /\ pending s = 0 /\ worker s = false /\ leaked_b s = false
+  | None => False
+  end.
+Proof. vm_compute. repeat split. Qed.
+
+(* and the acceptor follows a recording of it (bare handler: accept, reject, accept, reset), while
+   under the early-return switch the same recording is not a run: the stop cannot reach its quit *)
+Example C04_acceptor_rejecting_nonvacuous :
+  let rec := [EPost 0; EReturned 0; EPost 1; EReturned 1; EPost 2; EReturned 2; ETake; EDeliver 0 false; EDone true;
+              ETake; EDeliver 1 false; EDone false; ETake; EDeliver 2 false; EDone true; EResetLocked 0; EResetQuit 0; EStopEnd 0] in
+  match accept_shutdown rc_src du_src true true 1 rec, accept_shutdown rc_src false true true 1 rec with
+  | Accepted a, Rejected k _ => obs a = [0; 1; 2] /\ stops (ms a) = [RDone] /\ k = 16
+  | _, _ => False
+  end.
+Proof. vm_compute. repeat split. Qed.
